@@ -308,7 +308,7 @@ impl DecodeBuffer {
                 let dict_slice = &self.dict_content[self.dict_content.len() - bytes_from_dict..];
                 self.buffer.extend(dict_slice);
 
-                self.total_output_counter += match_length as u64;
+                self.total_output_counter += bytes_from_dict as u64;
                 return self.repeat(self.buffer.len(), match_length - bytes_from_dict);
             } else {
                 let low = self.dict_content.len() - bytes_from_dict;
